@@ -68,6 +68,7 @@ FUNCS = [  # (lean name, file, class, method, translator key, lean type)
     ("surface", "statemachine/state.py", None, "surface", "surface", "U.SurfaceScript"),
     ("takeCallback", "statemachine/dispatcher.py", None, "take", "take", "T.TakeScript"),
     ("glue", "statemachine/utils.py", None, "glue", "glue", "K.GlueScript"),
+    ("objects", "statemachine/state.py", None, "obj", "obj", "O.ObjScript"),
 ]
 ASYNC_DEF = {"activateAsync", "triggerAsync", "processAsync", "wrapperDunder", "execAsyncCall", "execAsyncAll"}
 
@@ -1010,7 +1011,7 @@ class _CompVars(ast.NodeTransformer):
                 self.map[g.target.id] = f"X{len(self.map)}"
         return self.generic_visit(node)
 
-    visit_ListComp = visit_GeneratorExp = visit_SetComp = _comp
+    visit_ListComp = visit_GeneratorExp = visit_SetComp = visit_DictComp = _comp
 
     def visit_Name(self, node):
         if node.id in self.map:
@@ -2242,6 +2243,96 @@ def tr_glue(repo):
             + ",\n  registryKeys := " + _strlist(keys) + ", qualnameIsModuleDotName := " + qn + " }")
 
 
+# ----------------------------------------------------------------------------------------- declared objects
+
+def tr_obj(repo):
+    M = lambda rel, cls, name: method(repo, rel, cls, name)
+    st, ss, ev, cb = "statemachine/state.py", "statemachine/states.py", "statemachine/event.py", "statemachine/callbacks.py"
+
+    def params(fn, want, what):
+        a = fn.args
+        got = [x.arg for x in a.args] + [x.arg for x in a.kwonlyargs]
+        if got != want or a.vararg or a.kwarg:
+            raise Untranslatable(f"{what}: parameters {got}")
+        return [ast.unparse(d) for d in a.defaults]
+    fn = _plain(M(st, "State", "__init__"))
+    if params(fn, ["self", "name", "value", "initial", "final", "enter", "exit"], "State.__init__") != \
+            ["''", "None", "False", "False", "None", "None"]:
+        raise Untranslatable("State.__init__: defaults")
+    fields = {f"self.{a} = {b}": f'.field "{a}" "{b}"' for a, b in
+              (("name", "name"), ("value", "value"), ("_initial", "initial"), ("_final", "final"))}
+    si = _stmts(fn, dict(fields, **{
+        "self._id = ''": ".emptyId", "self.transitions = TransitionList()": ".ownTransitionList",
+        "self._specs = CallbackSpecList()": ".ownSpecList",
+        "self.enter = self._specs.grouper(CallbackGroup.ENTER).add(enter, priority=CallbackPriority.INLINE)": ".enterInline",
+        "self.exit = self._specs.grouper(CallbackGroup.EXIT).add(exit, priority=CallbackPriority.INLINE)": ".exitInline",
+    }), "State.__init__")
+    fn = M(st, "State", "_set_id")
+    params(fn, ["self", "id"], "State._set_id")
+    sid = _stmts(fn, {
+        "self._id = id": ".assignId",
+        "if self.value is None:\n    self.value = id": ".valueDefaultsToId .isNone",
+        "if not self.value:\n    self.value = id": ".valueDefaultsToId .falsy",
+        "self.value = self.value or id": ".valueDefaultsToId .falsy",
+        "if not self.name:\n    self.name = self._id.replace('_', ' ').capitalize()": ".nameDefaultsFromId",
+    }, "State._set_id")
+    sg = _stmts(M(st, "State", "__get__"), {
+        "if machine is None:\n    return self": ".classAccessItself",
+        "return self.for_instance(machine=machine, cache=machine._states_for_instance)": ".instanceAccessCachedPerMachine",
+    }, "State.__get__")
+    sset = _stmts(M(st, "State", "__set__"), {"re:^raise StateMachineError\\(.*\\)$": ".raiseOverriding"}, "State.__set__")
+    one = lambda cls, name, table: _stmts(_plain(M(ss, cls, name)), table, f"{cls}.{name}")
+    states = [
+        one("States", "__init__", {"self._states = states if states is not None else {}": ".ownDictUnlessGiven"}),
+        one("States", "append", {"self._states[state.id] = state": ".appendKeyedById"}),
+        one("States", "__iter__", {"return iter(self._states.values())": ".iterValuesInOrder"}),
+        one("States", "__getattr__", {"if name in self._states:\n    return self._states[name]": ".getattrByKeyElseAttributeError",
+                                      "re:^raise AttributeError\\(.*\\)$": ""}),
+        one("States", "from_enum", {
+            "final_set = set(ensure_iterable(final))": ".enumFinalSet",
+            "return cls({X0.name: State(value=X0 if use_enum_instance else X0.value, initial=X0 is initial, "
+            "final=X0 in final_set) for X0 in enum_type})": ".enumOneStatePerMember"}),
+    ]
+    for x, n in zip(states, (1, 1, 1, 1, 2)):
+        if x.count(".") != n:
+            raise Untranslatable(f"States: {x}")
+    states = "[" + ", ".join(x[1:-1] for x in states) + "]"
+    fn = _plain(M(ev, "Event", "__new__"))
+    if params(fn, ["cls", "transitions", "id", "name", "_sm"], "Event.__new__") != ["None"] * 4:
+        raise Untranslatable("Event.__new__: defaults")
+    en = _stmts(fn, {
+        "if isinstance(transitions, str):\n    id = transitions\n    transitions = None": ".stringFirstArgumentIsTheId",
+        "_has_real_id = id is not None": ".realIdIffGiven",
+        "id = str(id) if _has_real_id else f'__event__{uuid4().hex}'": ".idStrElseFresh",
+        "instance = super().__new__(cls, id)": ".strOfId",
+        "instance.id = id": ".assignId",
+        "if name:\n    instance.name = name\nelif _has_real_id:\n    instance.name = str(id).replace('_', ' ').capitalize()\n"
+        "else:\n    instance.name = ''": ".nameGivenElseFromRealIdElseEmpty",
+        "if transitions:\n    instance._transitions = transitions": ".keepTransitionsIfAny",
+        "instance._has_real_id = _has_real_id": ".assignHasRealId",
+        "instance._sm = _sm": ".assignMachine",
+        "return instance": ".ret",
+    }, "Event.__new__")
+    fn = _plain(M(cb, "CallbackSpec", "__init__"))
+    if params(fn, ["self", "func", "group", "is_convention", "is_event", "cond", "priority", "expected_value"],
+              "CallbackSpec.__init__") != ["False", "False", "None", "CallbackPriority.NAMING", "None"]:
+        raise Untranslatable("CallbackSpec.__init__: defaults")
+    fields = {f"self.{a} = {a}": f'.field "{a}" "{a}"' for a in
+              ("func", "group", "is_convention", "is_event", "cond", "expected_value", "priority")}
+    cs = _stmts(fn, dict(fields, **{
+        "if isinstance(func, property):\n    self.reference = SpecReference.PROPERTY\n"
+        "    self.attr_name = func and func.fget and func.fget.__name__ or ''\n"
+        "elif callable(func):\n    self.reference = SpecReference.CALLABLE\n    self.is_bounded = hasattr(func, '__self__')\n"
+        "    self.attr_name = func.__name__ if not self.is_event or self.is_bounded else f'_{func.__name__}_'\n"
+        "    if not self.is_bounded:\n        func.attr_name = self.attr_name\n        func.is_event = is_event\n"
+        "else:\n    self.reference = SpecReference.NAME\n    self.attr_name = func": ".referenceByKindOfFunc",
+        "self.may_contain_boolean_expression = not self.is_convention and self.group == CallbackGroup.COND and "
+        "(self.reference == SpecReference.NAME)": ".expressionOnlyInNamedConditionsNotConvention",
+    }), "CallbackSpec.__init__")
+    return ("{\n  stateInit := " + si + ",\n  setId := " + sid + ",\n  stateGet := " + sg + ", stateSet := " + sset
+            + ",\n  states := " + states + ",\n  eventNew := " + en + ",\n  specInit := " + cs + " }")
+
+
 TRANSLATORS = {"eventcall": tr_eventcall, "send": tr_send, "start": tr_start, "injected": tr_injected,
                "activate": tr_activate, "trigger": tr_trigger, "process": tr_process, "wrapper": tr_wrapper,
                "executor": tr_executor, "bind": tr_bind,
@@ -2286,6 +2377,8 @@ def _translate_one(repo, name, rel, cls, meth, key, ty):
             return (ty, tr_take(repo), None)
         if key == "glue":
             return (ty, tr_glue(repo), None)
+        if key == "obj":
+            return (ty, tr_obj(repo), None)
         if key == "injected":
             if [ast.unparse(d) for d in fn.decorator_list] != ["property"]:
                 raise Untranslatable("extended_kwargs is not a property")
@@ -2470,6 +2563,15 @@ SELFTEST_EDITS = [
     ("statemachine/mixins.py", "        super().__init__(*args, **kwargs)\n        if not self.state_machine_name:", "        if not self.state_machine_name:"),
     ("statemachine/exceptions.py", "        self.event = event\n", "        self.event = str(event)\n"),
     ("statemachine/registry.py", "    _REGISTRY[cls.__name__] = cls\n", "    _REGISTRY.setdefault(cls.__name__, cls)\n"),
+    ("statemachine/state.py", "        if self.value is None:\n            self.value = id", "        if not self.value:\n            self.value = id"),
+    ("statemachine/state.py", "            enter, priority=CallbackPriority.INLINE", "            enter, priority=CallbackPriority.GENERIC"),
+    ("statemachine/state.py", "        self.transitions = TransitionList()\n        self._specs", "        self.transitions = _EMPTY\n        self._specs"),
+    ("statemachine/states.py", "initial=e is initial", "initial=e == initial"),
+    ("statemachine/states.py", "        self._states[state.id] = state", "        self._states.setdefault(state.id, state)"),
+    ("statemachine/event.py", "        _has_real_id = id is not None", "        _has_real_id = bool(id)"),
+    ("statemachine/event.py", "        if transitions:\n            instance._transitions", "        if transitions is not None:\n            instance._transitions"),
+    ("statemachine/callbacks.py", "            self.is_bounded = hasattr(func, \"__self__\")", "            self.is_bounded = inspect.ismethod(func)"),
+    ("statemachine/callbacks.py", "            and self.group == CallbackGroup.COND\n", ""),
 ]
 
 
@@ -2480,6 +2582,8 @@ HARMLESS_EDITS = [
     ("statemachine/signature.py", "arg_vals", "positional_values"),
     ("statemachine/signature.py", "kwargs_param", "varkw_param"),
     ("statemachine/graph.py", "already_visited", "seen"),
+    ("statemachine/states.py", "        final_set = set(", "        # the finals\n        final_set = set("),
+    ("statemachine/states.py", "{\n                e.name: State(\n                    value=(e if use_enum_instance else e.value),\n                    initial=e is initial,\n                    final=e in final_set,\n                )\n                for e in enum_type", "{\n                member.name: State(\n                    value=(member if use_enum_instance else member.value),\n                    initial=member is initial,\n                    final=member in final_set,\n                )\n                for member in enum_type"),
     ("statemachine/utils.py", "        task = asyncio.ensure_future", "        # schedule it\n        task = asyncio.ensure_future"),
     ("statemachine/mixins.py", " sm = machine_cls(", " sm: object = machine_cls("),
     ("statemachine/graph.py", "    visit = deque()", "    # breadth first\n    visit = deque()"),
@@ -2587,6 +2691,7 @@ import SMV.Src.IRSpec
 import SMV.Src.IRSurface
 import SMV.Src.IRTake
 import SMV.Src.IRGlue
+import SMV.Src.IRObj
 /-! GENERATED by `harness/srcgen.py --write-expected` from the tree the theorems of `SMV/Src/Tie.lean` were
 proved for. Do not edit by hand. -/
 """
